@@ -11,13 +11,28 @@
  *       (library built with -DMYTH_VERIF_QUEUE_SIZE=16, so the run queue has 16 slots).
  *       The queue must be empty again at the end of every line (the ops of a line drain it).
  *
+ *   c02_lib conc         stdin: one case per line (format of harness/c02_wsq_unit.c)
+ *       <size> <nthieves> | <owner ops> | <thief 1 ops> | ... | <schedule>
+ *       Token-passing lock-step run on the run queue of worker 0 of the REAL library: the owner is
+ *       the main thread (P push, O pop through the wsapi, U myth_queue_put), the thieves are
+ *       pthreads (W0/W1 myth_wsapi_runqueue_take with a declining / accepting decision callback,
+ *       S<tag> wsapi pass, Q wsapi peek, T myth_queue_take, K myth_queue_peek).  The decision
+ *       callback is itself a scheduling point: it issues the POINT "wsapi.take.decide" (val = the
+ *       candidate) before answering, so other participants can be run WHILE the callback executes.
+ *       One step = up to the next POINT; output as c02_wsq_unit (snapshot after every step).
+ *       The queue is reset to its initial state between cases (no overflow cases here).
+ *
  *   c02_lib smoke <nthreads> <nyields> <seed>
  *       A yield/steal-heavy program on MYTH_NUM_WORKERS workers: nthreads threads, each yields
  *       nyields times (creating a child every few yields) and bumps its own execution counter.
  *       Prints "smoke threads=<n> runs_min=<a> runs_max=<b> sum=<s> expected=<e>". */
+#define _GNU_SOURCE
 #include <stdio.h>
 #include <stdlib.h>
 #include <string.h>
+#include <pthread.h>
+#include <semaphore.h>
+#include <unistd.h>
 #include "myth/myth.h"
 #include "myth_config.h"
 #include "myth_worker.h"
@@ -86,6 +101,183 @@ static int do_seq(void) {
   return 0;
 }
 
+
+/* ---- conc: lock-step on the real library's run queue ---- */
+#define MAXP 8
+#define MAXOPS 256
+#define MAXSCHED 8192
+#define STEPCAP 6000
+typedef struct { char kind; long tag; } op_t;
+typedef struct part {
+  int idx, nops;
+  op_t ops[MAXOPS];
+  sem_t go;
+  const char * at;
+  long val, result;
+  volatile int finished, ops_done;
+  pthread_t th;
+} part_t;
+static part_t PP[MAXP];
+static int NP;
+static sem_t back_sem;
+static __thread part_t * me;
+static myth_thread_queue_t CQ;
+static int csched[MAXSCHED], cuntil[MAXSCHED], ncsched;
+
+static void cpark(const char * id, long val) {
+  me->at = id; me->val = val;
+  sem_post(&back_sem);
+  sem_wait(&me->go);
+}
+static void ccb(int kind, const char * id, const void * obj, long val) {
+  (void)obj;
+  if (!me) return;
+  if (kind == MYTH_VERIF_KIND_POINT) cpark(id, val);
+}
+/* the decision callback of the wsapi take: a scheduling point, then the scripted answer */
+static int cdecide(myth_thread_t th, void * u) {
+  cpark("wsapi.take.decide", p2tag(th));
+  return *(int *)u;
+}
+static void cbody(part_t * p) {
+  int i;
+  me = p;
+  for (i = 0; i < p->nops; i++) {
+    long r = 0, tag = p->ops[i].tag;
+    int ans;
+    cpark("h.call", 0);
+    switch (p->ops[i].kind) {
+    case 'P': myth_wsapi_runqueue_push(tag2p(tag)); break;
+    case 'O': r = p2tag(myth_wsapi_runqueue_pop()); break;
+    case 'U': myth_queue_put(CQ, tag2p(tag)); break;
+    case 'W': ans = (tag == 1); r = p2tag(myth_wsapi_runqueue_take(0, cdecide, &ans)); break;
+    case 'S': r = myth_wsapi_runqueue_pass(0, tag2p(tag)); break;
+    case 'Q': r = p2tag(myth_wsapi_runqueue_peek(0, 0, 0)); break;
+    case 'T': r = p2tag(myth_queue_take(CQ)); break;
+    case 'K': r = p2tag(myth_queue_peek(CQ)); break;
+    }
+    p->result = r;
+    cpark("h.ret", 0);
+    p->ops_done = i + 1;
+  }
+  p->finished = 1;
+  me = 0;
+  sem_post(&back_sem);
+}
+static void * cthief(void * a) { cbody((part_t *)a); return 0; }
+
+static int cval_is_ptr(const char * id) {
+  return strncmp(id, "wsq.push.", 9) == 0 || strncmp(id, "wsq.put.", 8) == 0 || strncmp(id, "wsq.pass.", 9) == 0;
+}
+static void csnapshot(int who, int first) {
+  int i;
+  myth_thread_queue_t q = CQ;
+  printf("%s%d:%d,%d,%d,%d,%ld:", first ? "" : "|", who, q->top, q->base, q->lock.locked, q->wc.seq, p2tag((void *)q->wc.ptr));
+  for (i = 0; i < q->size; i++) printf(i ? ",%ld" : "%ld", p2tag(q->ptr[i]));
+  printf(":");
+  for (i = 0; i < NP; i++) {
+    part_t * p = &PP[i];
+    if (i) printf("/");
+    if (p->finished || strcmp(p->at, "h.call") == 0) printf("-");
+    else if (strcmp(p->at, "h.ret") == 0) printf("ret(%ld)", p->result);
+    else printf("%s(%ld)", p->at, cval_is_ptr(p->at) ? p2tag((void *)p->val) : p->val);
+  }
+}
+static void cstep(int i, int * first) {
+  if (i >= 0 && i < NP && !PP[i].finished) { sem_post(&PP[i].go); sem_wait(&back_sem); }
+  csnapshot(i, *first);
+  *first = 0;
+}
+static void * controller(void * a) {
+  int i, k, first = 1, steps = 0;
+  (void)a;
+  for (i = 0; i < NP; i++) sem_wait(&back_sem);       /* everybody parked at its first h.call (or finished) */
+  for (k = 0; k < ncsched; k++) {
+    if (cuntil[k] < 0) { cstep(csched[k], &first); steps++; }
+    else {
+      int p = csched[k], guard = 0;
+      while (p >= 0 && p < NP && !PP[p].finished && PP[p].ops_done < cuntil[k] && guard++ < 400) { cstep(p, &first); steps++; }
+    }
+  }
+  for (;;) {
+    int all = 1;
+    for (i = 0; i < NP; i++) if (!PP[i].finished) all = 0;
+    if (all || steps >= STEPCAP) break;
+    for (i = 0; i < NP; i++) if (!PP[i].finished) { cstep(i, &first); steps++; }
+  }
+  printf("\n");
+  fflush(stdout);
+  return 0;
+}
+static int cparse(char * line) {
+  char * save = 0, * fld;
+  int size, nth, f = 0;
+  NP = 0; ncsched = 0;
+  for (fld = strtok_r(line, "|", &save); fld; fld = strtok_r(0, "|", &save), f++) {
+    char * s2 = 0, * tok;
+    if (f == 0) {
+      if (sscanf(fld, "%d %d", &size, &nth) != 2) return -1;
+      if (size != CQ->size || nth + 1 > MAXP) return -2;
+      NP = nth + 1;
+      continue;
+    }
+    if (f <= NP) {
+      part_t * p = &PP[f - 1];
+      p->nops = 0;
+      for (tok = strtok_r(fld, " \n", &s2); tok; tok = strtok_r(0, " \n", &s2)) {
+        if (p->nops >= MAXOPS) return -3;
+        p->ops[p->nops].kind = tok[0];
+        p->ops[p->nops].tag = tok[1] ? atol(tok + 1) : 0;
+        p->nops++;
+      }
+    } else {
+      for (tok = strtok_r(fld, " \n", &s2); tok; tok = strtok_r(0, " \n", &s2)) {
+        if (ncsched >= MAXSCHED) return -4;
+        if (tok[0] == 'u') {
+          char * dot = strchr(tok, '.');
+          if (!dot) return -6;
+          csched[ncsched] = atoi(tok + 1); cuntil[ncsched] = atoi(dot + 1);
+        } else { csched[ncsched] = atoi(tok); cuntil[ncsched] = -1; }
+        ncsched++;
+      }
+    }
+  }
+  return f >= NP + 1 ? 0 : -5;
+}
+static int do_conc(void) {
+  static char line[1 << 18];
+  myth_globalattr_t ga[1];
+  myth_globalattr_init(ga);
+  myth_globalattr_set_n_workers(ga, 1);
+  myth_init_ex(ga);
+  CQ = &myth_get_current_env()->runnable_q;
+  while (fgets(line, sizeof(line), stdin)) {
+    int i, rc;
+    pthread_t ctl;
+    /* reset the queue to its initial state */
+    memset(CQ->ptr, 0, sizeof(myth_thread_t) * CQ->size);
+    CQ->base = CQ->size / 2; CQ->top = CQ->base; CQ->lock.locked = 0;
+    memset(&CQ->wc, 0, sizeof(CQ->wc));
+    rc = cparse(line);
+    if (rc) { printf("BADCASE %d\n", rc); fflush(stdout); continue; }
+    sem_init(&back_sem, 0, 0);
+    for (i = 0; i < NP; i++) {
+      sem_init(&PP[i].go, 0, 0);
+      PP[i].idx = i; PP[i].finished = 0; PP[i].ops_done = 0; PP[i].at = "h.call";
+    }
+    alarm(20);
+    g_myth_verif_cb = ccb;
+    pthread_create(&ctl, 0, controller, 0);
+    for (i = 1; i < NP; i++) pthread_create(&PP[i].th, 0, cthief, &PP[i]);
+    cbody(&PP[0]);                       /* the owner is this thread: worker 0 of the library */
+    for (i = 1; i < NP; i++) pthread_join(PP[i].th, 0);
+    pthread_join(ctl, 0);
+    g_myth_verif_cb = 0;
+    alarm(0);
+  }
+  return 0;
+}
+
 /* ---- smoke ---- */
 #define MAXT 4096
 static volatile int runs[MAXT];
@@ -126,7 +318,8 @@ static int do_smoke(int nt, int ny, int seed) {
 
 int main(int argc, char ** argv) {
   if (argc >= 2 && strcmp(argv[1], "seq") == 0) return do_seq();
+  if (argc >= 2 && strcmp(argv[1], "conc") == 0) return do_conc();
   if (argc >= 5 && strcmp(argv[1], "smoke") == 0) return do_smoke(atoi(argv[2]), atoi(argv[3]), atoi(argv[4]));
-  fprintf(stderr, "usage: c02_lib seq | smoke <nthreads> <nyields> <seed>\n");
+  fprintf(stderr, "usage: c02_lib seq | conc | smoke <nthreads> <nyields> <seed>\n");
   return 2;
 }
